@@ -22,5 +22,10 @@ func (m *Map[K, V]) CompareAndSwap(key K, old V, new V) (deleted bool) {
 }
 func (m *Map[K, V]) Swap(key K, value V) (previous V, loaded bool) {
 	previousUntyped, loaded := m.m.Swap(key, value)
+	if previousUntyped == nil {
+		// No previous value, or a nil interface value: previousUntyped.(V) would panic.
+		var zero V
+		return zero, loaded
+	}
 	return previousUntyped.(V), loaded
 }
